@@ -3,7 +3,7 @@
     every log line actually produced in the explored histories / schedules / fault sequences and the binary's
     start-up output are scanned for the secrets the harness minted (dynamic part of the check). *)
 From Coq Require Import NArith List Bool.
-From WW Require Import Model.Logs Gen.LogSites Proofs.LogsP.
+From WW Require Import Base.Bytes Model.GoUrl Model.Logs Gen.LogSites Proofs.LogsP.
 Import ListNotations.
 
 (** Every logging call site of the current source tree passes only classified, non-secret arguments: a new
@@ -27,3 +27,49 @@ Print Assumptions c18_banner_uri_refuted.
 Theorem c18_banner_leaks_only_uri : forall c s, In s (banner_leaks false c) -> s = BRedisUriPassword.
 Proof. exact banner_leaks_only_uri. Qed.
 Print Assumptions c18_banner_leaks_only_uri.
+
+(** The redis.uri field of the banner (Model/Logs.v:redact_uri_password = pkg/config/config.go:redactURIPassword over the
+    net/url model Model/GoUrl.v; compared with the built binary on every run for a sweep of password spellings).
+    What is printed is computed from the PARSED URL with the value of the password forgotten: two configured values whose
+    parsed URLs differ at most in the value of the password print identically - for every spelling of either password
+    (literal sub-delimiters, upper- or lower-case percent-encoding, unnecessarily encoded characters, empty), every user
+    name, host, path, query and fragment, and every replacement text. *)
+Theorem c18_banner_uri_password_independent : forall s1 s2 u1 u2 rep,
+  is_empty s1 = false -> is_empty s2 = false -> parse_url s1 = Some u1 -> parse_url s2 = Some u2 ->
+  url_erase_password u1 = url_erase_password u2 ->
+  redact_uri_password s1 rep = redact_uri_password s2 rep.
+Proof. exact redact_uri_password_independent. Qed.
+Print Assumptions c18_banner_uri_password_independent.
+
+Theorem c18_banner_uri_from_erased : forall uri rep u, is_empty uri = false -> parse_url uri = Some u ->
+  redact_uri_password uri rep = url_string (url_set_password (url_erase_password u) rep).
+Proof. exact redact_uri_via_erased. Qed.
+Print Assumptions c18_banner_uri_from_erased.
+
+(** A non-empty value that url.Parse rejects is not printed at all. *)
+Theorem c18_banner_uri_unparseable : forall uri rep,
+  is_empty uri = false -> parse_url uri = None -> redact_uri_password uri rep = rep.
+Proof. exact redact_uri_unparseable. Qed.
+Print Assumptions c18_banner_uri_unparseable.
+
+(** The pre-fix banner printed the value verbatim, whatever it was. *)
+Theorem c18_banner_uri_unmasked_verbatim : forall uri, banner_uri_field false uri = uri.
+Proof. reflexivity. Qed.
+Print Assumptions c18_banner_uri_unmasked_verbatim.
+
+(** Non-vacuity: redis://u:a%2fb@h/0 , redis://u:x!y*@h/0 and redis://u:@h/0 have parsed URLs that differ only in the
+    password (a/b, x!y*, empty); all three are printed as redis://u:%2A%2AREDACTED%2A%2A@h/0 ; redis://u:%zz@h is
+    rejected by url.Parse and printed as **REDACTED**. *)
+Definition c18_ex_uri (pw : bytes) : bytes := [114;101;100;105;115;58;47;47;117;58] ++ pw ++ [64;104;47;48].
+Example c18_nonvacuous_uri :
+  (exists u1 u2 u3, parse_url (c18_ex_uri [97;37;50;102;98]) = Some u1 /\ parse_url (c18_ex_uri [120;33;121;42]) = Some u2 /\
+     parse_url (c18_ex_uri []) = Some u3 /\
+     url_erase_password u1 = url_erase_password u2 /\ url_erase_password u2 = url_erase_password u3 /\
+     uri_password (c18_ex_uri [97;37;50;102;98]) = Some [97;47;98] /\ uri_password (c18_ex_uri [120;33;121;42]) = Some [120;33;121;42]) /\
+  redact_uri_password (c18_ex_uri [97;37;50;102;98]) redacted_text =
+    [114;101;100;105;115;58;47;47;117;58;37;50;65;37;50;65;82;69;68;65;67;84;69;68;37;50;65;37;50;65;64;104;47;48] /\
+  parse_url (c18_ex_uri [37;122;122]) = None /\ redact_uri_password (c18_ex_uri [37;122;122]) redacted_text = redacted_text.
+Proof.
+  split; [|vm_compute; repeat split].
+  eexists; eexists; eexists. vm_compute. repeat split.
+Qed.
